@@ -345,5 +345,5 @@ static void one_case(vh::Ctx & c, uint64_t idx)
 
 int main(int argc, char ** argv)
 {
-  return vh::run(argc, argv, "C04", {4800, 800000}, one_case);
+  return vh::run(argc, argv, "C04", {16000, 800000}, one_case);
 }
